@@ -653,7 +653,8 @@ class Multi(Miniscript):
         )
 
     def __len__(self):
-        return self.len_args() + 2
+        # <n> takes two bytes when there are more than 16 keys
+        return self.len_args() + len(Number(len(self.args) - 1)) + 1
 
     def verify(self):
         super().verify()
